@@ -1,6 +1,7 @@
 package main
 
 import (
+	"go/types"
 	"fmt"
 	"go/token"
 
@@ -61,6 +62,11 @@ func checkC02(c *Ctx, r *Report) {
 				}
 			}
 			key := fmt.Sprintf("AppendBatch nextOffset increment #%d", i+1)
+			if w := narrowArith(st.Val); w != "" {
+				r.viol("C02.R2", key+" is computed in 64 bits", m.Pos(st.Pos()), w)
+			} else {
+				r.ok("C02.R2", key+" is computed in 64 bits", m.Pos(st.Pos()), "no addition is performed in a narrower type before widening")
+			}
 			if okShape && sawNext && sawDelta {
 				r.ok("C02.R2", key, m.Pos(st.Pos()), "new value = load(nextOffset) + int64(batch.LastOffsetDelta) + 1")
 			} else {
@@ -229,4 +235,36 @@ func checkC02(c *Ctx, r *Report) {
 			r.unresolved("C02.R2", "NewRecordBatchFromBytes success return", "no return with nil error")
 		}
 	}
+}
+
+// narrowArith reports an addition/subtraction/multiplication that is performed in a narrower integer
+// type and only then widened (int64(delta+1)): the narrow operation can overflow although the wide
+// result has room.
+func narrowArith(v ssa.Value) string {
+	out := ""
+	var walk func(v ssa.Value, depth int)
+	walk = func(v ssa.Value, depth int) {
+		if depth > 8 || out != "" {
+			return
+		}
+		switch x := v.(type) {
+		case *ssa.Convert:
+			db, ok1 := x.Type().Underlying().(*types.Basic)
+			sb, ok2 := x.X.Type().Underlying().(*types.Basic)
+			if ok1 && ok2 && intWidth(db) > intWidth(sb) && intWidth(sb) > 0 {
+				if bo, ok := x.X.(*ssa.BinOp); ok && (bo.Op == token.ADD || bo.Op == token.SUB || bo.Op == token.MUL) {
+					out = fmt.Sprintf("%s is evaluated in %s and only then widened to %s: it overflows for large client-chosen values", describe(bo), sb.Name(), db.Name())
+					return
+				}
+			}
+			walk(x.X, depth+1)
+		case *ssa.BinOp:
+			walk(x.X, depth+1)
+			walk(x.Y, depth+1)
+		case *ssa.ChangeType:
+			walk(x.X, depth+1)
+		}
+	}
+	walk(v, 0)
+	return out
 }
